@@ -53,8 +53,9 @@ def ensure_ext(path: os.PathLike[str], extensions: Iterable[str]):
     if not all(isinstance(ext, str) for ext in extensions):
         raise TypeError("'extensions' must be 'str' or 'Iterable[str]'")
 
-    extension = "".join(path.suffixes)
-    if extension not in extensions:
+    # A dot elsewhere in the name ("cuda-12.1-dendrogram.png",
+    # "compile_commands.cpu.json") is not part of the extension.
+    if not any(path.name.endswith(ext) for ext in extensions):
         exts = ", ".join([f"'{ext}'" for ext in extensions])
         raise ValueError(f"{path} does not have a valid extension: f{exts}")
 
